@@ -4,7 +4,7 @@
     with "unset = 0"), latency bounds over LatencyModel.v (unbounded Z), and the
     lockset annotation of the fields shared with the periodic refresh. *)
 From Gnmi Require Import Base.Prelude CTree.CTreeModel Path.PathModel Cache.CacheModel
-  Cache.MultiCache Cache.C14Proofs Cache.C14Check Cache.C15Check Cache.C15Proofs Latency.LatencyModel Latency.LatencyProofs.
+  Cache.MultiCache Cache.C14Proofs Cache.C14Check Cache.C15Check Cache.C15Proofs Cache.C15Count Latency.LatencyModel Latency.LatencyProofs.
 Local Open Scope Z_scope.
 
 (** update_accounting.  Reading fixed in DESIGN section 6: the law is per
@@ -48,17 +48,23 @@ Theorem C15_leafcount_add_minus_del : forall t now n t' fd r,
 Proof. exact leafcount_add_minus_del_step. Qed.
 Print Assumptions C15_leafcount_add_minus_del.
 
-(** leafcount_is_tree.
-    FULL STATEMENT (not finished): for every reachable target,
-      gi (t_meta t) md_leaf_count = real_leaves t
-    (number of leaves stored outside "meta").  It was false before ccc875e
-    (DESIGN 7.11, found by this check: ConnectError; Connect gave -1).
-    Proved: every movement of the count is right -- gnmiRemove subtracts
-    exactly the removed leaves not under "meta" ([counted]), gnmiUpdate adds 1
-    exactly when it creates a leaf outside "meta" ([C15_unit_accounting]'s
-    [real_new]); missing: the counting argument over [walk] that turns the two
-    into the equation.  K_P checks the equation on every observation. *)
-Theorem C15_leafcount_is_tree_partial : forall t n d ds t' r,
+(** leafcount_is_tree: after every history of calls (GnmiUpdate, Reset, Remove,
+    Add, Sync, Connect, ConnectError, UpdateMetadata, UpdateSize, subscribing)
+    none of which panics, deletes the metadata leaf of a counter itself or adds
+    a target with the empty name, for every target the exported leaf count
+    equals the number of leaves stored outside "meta" ([real_count] = length of
+    [filter (not under meta) (walk tree)]).  This was false before ccc875e
+    (DESIGN 7.11, found by this check: ConnectError; Connect gave -1). *)
+Theorem C15_leafcount_is_tree : forall cfg names ops,
+  ~ In ""%string names -> good_run (new_cache cfg names) ops ->
+  forall name t, assoc name (c_targets (crun (new_cache cfg names) ops)) = Some t ->
+    gi (t_meta t) md_leaf_count = real_count (t_tree t).
+Proof. exact leafcount_is_tree. Qed.
+Print Assumptions C15_leafcount_is_tree.
+
+(** its two local halves: gnmiRemove subtracts exactly the removed leaves not
+    under "meta"; gnmiUpdate keeps (count - stored) unchanged *)
+Theorem C15_leafcount_remove : forall t n d ds t' r,
   n_del n = d :: ds -> no_counter_reset (n_prefix n) d ->
   gnmi_remove t n = (t', r) -> (forall w, r <> Panic w) ->
   exists removed, r = Ok removed /\
@@ -67,7 +73,15 @@ Theorem C15_leafcount_is_tree_partial : forall t n d ds t' r,
         (if String.eqb k' md_leaf_count then - counted removed
          else if String.eqb k' md_del_count then counted removed else 0).
 Proof. exact gnmi_remove_moves. Qed.
-Print Assumptions C15_leafcount_is_tree_partial.
+Print Assumptions C15_leafcount_remove.
+
+Theorem C15_leafcount_update : forall t now n t' r,
+  struct_inv (t_tree t) -> gnmi_update1 t now n = (t', r) ->
+  struct_inv (t_tree t') /\ off t' = off t /\
+  (forall p, unit_index n = Ok p -> is_real p = false ->
+             gi (t_meta t') md_leaf_count = gi (t_meta t) md_leaf_count).
+Proof. exact gnmi_update1_off. Qed.
+Print Assumptions C15_leafcount_update.
 
 (** latest_is_max: the latest timestamp never decreases, and moves only to the
     timestamp of a notification whose first update is tracked ([tracks_ts]: the
@@ -116,19 +130,16 @@ Proof. exact avg_bounds. Qed.
 Print Assumptions C15_latency_avg_arith.
 
 (** "without unsynchronised access": over the lockset annotation of the access
-    sites ([C15Proofs.accesses]) the metadata values, the latency accumulators
-    and the tree are protected ... *)
-Theorem C15_no_unprotected_access_meta_lat_tree :
-  no_unprotected_access FMeta = true /\ no_unprotected_access FLat = true /\
-  no_unprotected_access FTree = true.
-Proof. exact lockset_meta_lat_tree. Qed.
-Print Assumptions C15_no_unprotected_access_meta_lat_tree.
-
-(** ... and Target.sync / Target.ts are not (known finding KF-C15-4) *)
-Theorem C15_no_unprotected_access_refuted :
-  no_unprotected_access FSync = false /\ no_unprotected_access FTs = false.
-Proof. exact lockset_sync_ts_refuted. Qed.
-Print Assumptions C15_no_unprotected_access_refuted.
+    sites ([C15Proofs.accesses]: field, read/write, which of the two goroutines
+    -- update stream, periodic refresh -- reaches the site, mutexes held) every
+    conflicting pair shares a mutex, for every shared field (sync, ts, metadata
+    values, latency accumulators, tree).  True since b865e5c (Target.wmu); the
+    annotation without it is refuted in [lockset_before_wmu_refuted] (former
+    known finding 7.13).  That the annotation matches the code is validated
+    only by the race detector (thorough tier). *)
+Theorem C15_no_unprotected_access : forall f, no_unprotected_access f = true.
+Proof. exact lockset_all. Qed.
+Print Assumptions C15_no_unprotected_access.
 
 (** soundness of the executable specification used on the implementation's
     exported statistics (tag 6) *)
